@@ -4,6 +4,7 @@ from .values import SVal, VecVal, PtrVal, RefVal, Opaque, Path, select, tree_eq,
 
 INT_MIN, INT_MAX = -2 ** 31, 2 ** 31 - 1
 
+SAFETY_ONLY = {'C05'}
 REGISTRY = {}      # key -> Contract
 ORDER = []
 
@@ -47,7 +48,12 @@ class Contract:
         self.timeout_ms = timeout_ms
 
     def props_for(self, label):
-        return self.prop_of.get(label, self.serves)
+        if label in self.prop_of:
+            return self.prop_of[label]
+        # functional clauses do not serve the pure memory-safety/termination property C05
+        if label in ('throws', 'frame', 'binds'):
+            return self.serves
+        return tuple(p for p in self.serves if p not in SAFETY_ONLY) or self.serves
 
 
 def fn(name, tu, **kw):
